@@ -720,6 +720,13 @@ impl HttpContext {
                             .data_opt(buf)
                             .and_then(|data| from_utf8(data).ok())
                             .map(ToOwned::to_owned);
+                    } else if compare_no_case(key, self.sozu_id_header.as_bytes()) {
+                        // The correlation header is proxy-generated: exactly one
+                        // reaches the backend, carrying `self.id` (pushed below).
+                        // A client-supplied field of the same name would be a
+                        // second, attacker-chosen correlation id, so it is
+                        // stripped like a spoofed `X-Real-IP`.
+                        header.elide();
                     } else if compare_no_case(key, b"X-Request-Id") {
                         // RFC: not standardized, but the de-facto correlation
                         // header used by Envoy/HAProxy/most LBs. Preserve the
